@@ -49,6 +49,38 @@ func init() {
 			}
 			return true
 		})
+		// Every assignment to the function's `err` inside the loop assigns a value already tested non-nil
+		// (`if x := f(); x != nil { err = x }` / `if x != nil { err = x }`): a failure is never reset by the
+		// success of a connector iterated later. `if err = f(); err != nil` (assignment in the if's init)
+		// or a bare `err = f()` overwrite it in every iteration.
+		errAssigns, safeAssigns := 0, 0
+		ast.Inspect(loop.Body, func(n ast.Node) bool {
+			switch v := n.(type) {
+			case *ast.AssignStmt:
+				if v.Tok == token.ASSIGN {
+					for _, l := range v.Lhs {
+						if id, ok := l.(*ast.Ident); ok && id.Name == "err" {
+							errAssigns++
+						}
+					}
+				}
+			case *ast.IfStmt:
+				be, ok := v.Cond.(*ast.BinaryExpr)
+				if !ok || be.Op != token.NEQ || src2(be.Y) != "nil" {
+					return true
+				}
+				for _, st := range v.Body.List {
+					if as, ok := st.(*ast.AssignStmt); ok && as.Tok == token.ASSIGN && len(as.Lhs) == 1 && len(as.Rhs) == 1 {
+						if id, ok := as.Lhs[0].(*ast.Ident); ok && id.Name == "err" && src2(as.Rhs[0]) == src2(be.X) && src2(be.X) != "err" {
+							safeAssigns++
+						}
+					}
+				}
+			}
+			return true
+		})
+		b.P("/-- the loop over the batch only ever assigns a non-nil error to `err`: the failure of one connector is kept whatever the others do -/")
+		b.P("def flushNowLoopKeepsFailure : Bool := %v", assigns && !shadows && errAssigns == safeAssigns && errAssigns > 0)
 		b.P("/-- a failed storeFunc (store Set) reaches the `err` that guards Commit and is passed to the callbacks -/")
 		b.P("def flushNowStoreErrPropagates : Bool := %v", assigns && !shadows)
 
